@@ -8,6 +8,26 @@ from .repo import ClassInfo, FuncInfo, ModuleInfo
 from .symex import Frame, _and, _or, _not, _as_int, _z3b
 
 
+def make_text(parts):
+    """Symbolic text: a sequence of literal strings and decimal renderings of symbolic ints (``str(int)`` is
+    injective, so two texts with the same part sequence are equal strings)."""
+    flat = []
+    for p in parts:
+        if isinstance(p, Opaque) and p.tag == "text":
+            flat.extend(p.attrs["parts"])
+        elif isinstance(p, Opaque) and p.tag == "str(int)":
+            flat.append(("int", p.attrs["int"]))
+        elif isinstance(p, str):
+            if p:
+                if flat and isinstance(flat[-1], str):
+                    flat[-1] += p
+                else:
+                    flat.append(p)
+        else:
+            return Opaque("str")
+    return Opaque("text", attrs={"parts": flat})
+
+
 def floor_div(a, b):
     if isinstance(a, int) and isinstance(b, int):
         if b == 0:
@@ -141,7 +161,7 @@ class EvalMixin:
                 parts.append(self.to_str(val))
         if all(isinstance(p, str) for p in parts):
             return "".join(parts)
-        return Opaque("str")
+        return make_text(parts)
 
     def symstr_slice(self, v, lo, hi):
         n = v.length
@@ -175,6 +195,8 @@ class EvalMixin:
             if m is not None:
                 return self.call_function(FuncVal(m, self_val=v), [], {})
             return Opaque("str")
+        if isinstance(v, Opaque) and v.tag in ("text", "str(int)", "str"):
+            return v
         if isinstance(v, Opaque) and "__str__" in v.methods:
             return v.methods["__str__"](self)
         if is_symint(v):
